@@ -25,6 +25,9 @@ def secret_sets(rng, tier):
         [m(0) + "\n" + m(0), "\n\n\n\n" + m(1), m(2) + "\r\n", "\t" + m(3)],
         [m(0) + "\"quoted\"", m(1) + "\\", m(2) + "é日本\U0001F600", m(3) + "\x00\x1b[31m"],
         [m(0) * 40, m(1) * 3, m(2), m(3) * 100],
+        ["https://v.example/activate/%s?locale=en&code=%s#f" % (m(0), m(0)), "https://v.example/device/%s?user_code=%s" % (m(1), m(1)),
+         "%s?%s=%s&x" % (m(2), m(2), m(2)), "https://v.example/activate/%s?locale=en&user_code=%s#%s" % (m(3), m(3), m(3))],
+        ["a/%s" % m(0), "%s:%s@host" % (m(1), m(1)), "#%s" % m(2), "?%s" % m(3)],
     ]
     if tier == "thorough":
         sets.append([m(0) * 6000, m(1) * 6000, m(2) * 10, m(3)])   # > 64 KiB
